@@ -14,6 +14,7 @@ CASES = [
     Case('S_from_cumulative_Q', CO, "        S[1:, 1:] = super(self.generator.__class__, self.generator).S", "        S[1:, 1:] = self.generator.Q", 'C05.R3', 'self.Smat'),
     Case('weights_shared_with_generator', CO, "        self.weights = self.generator.weights.copy()", "        self.weights = self.generator.weights", 'C05.R3', 'nodes and weights'),
     Case('delta_from_zero', CO, "        delta[0] = self.nodes[0] - self.tleft", "        delta[0] = self.nodes[0]", 'C05.R4', '_gen_deltas'),
+    Case('sweeper_filters_collocation_params', SWP, "        self.coll: CollBase = params['collocation_class'](**params)", "        self.coll: CollBase = params['collocation_class'](**{k: params[k] for k in ('num_nodes', 'tleft', 'tright', 'quad_type') if k in params})", 'C05.R1', 'Sweeper.__init__', note='node_type is silently dropped'),
     # twins
     Case('twin_local_names', CO, "        Q = np.zeros([num_nodes + 1, num_nodes + 1], dtype=float)\n        Q[1:, 1:] = self.generator.Q\n        self.Qmat = Q", "        Qpad = np.zeros([num_nodes + 1, num_nodes + 1], dtype=float)\n        Qpad[1:, 1:] = self.generator.Q\n        self.Qmat = Qpad", benign=True),
     Case('twin_flag_tuple', CO, "self.left_is_node = self.quad_type in ['LOBATTO', 'RADAU-LEFT']", "self.left_is_node = self.quad_type in ('RADAU-LEFT', 'LOBATTO')", benign=True),
